@@ -19,7 +19,7 @@ ASSUMPTIONS = ['cooperative scheduling only']
 METHODS = ('GET', 'POST', 'OPTIONS', 'PUT', 'DELETE', 'HEAD')
 EIOS = (None, '3', '4', '5', '4&EIO=4')
 TRANSPORTS = (None, 'polling', 'websocket', 'other', 'poll', 'socket')
-SIDKINDS = ('absent', 'live-polling', 'live-upgraded', 'mid-upgrade', 'closed-not-reaped', 'unknown', 'rejected')
+SIDKINDS = ('absent', 'live-polling', 'live-upgraded', 'mid-upgrade', 'closed-not-reaped', 'unknown', 'rejected', 'empty')
 UPHDRS = (None, {'Upgrade': 'websocket', 'Connection': 'Upgrade'}, {'Upgrade': 'WebSocket', 'Connection': 'keep-alive, Upgrade'},
           {'Upgrade': 'websocket'})
 JS = (None, '0', 'x', '17')
@@ -42,6 +42,9 @@ def _build(fl, cfg, sk, bystander=True):
         sut.app_send(st['by'], 'for-bystander')
         sut.settle()
     if sk in ('absent',):
+        return st
+    if sk == 'empty':
+        st['sid'] = ''          # the query carries an empty sid argument ("...&sid="): no session is named
         return st
     if sk == 'unknown':
         st['sid'] = 'nosuchsessionid'
@@ -145,6 +148,8 @@ def _probe(st, sk):
 def _reasons(method, eio, tr, sk, up, j, cfg):
     """Refusal reasons per the statement. Returns (must_refuse, unconstrained)."""
     allowed = [cfg] if isinstance(cfg, str) else (cfg or ['polling', 'websocket'])
+    if sk == 'empty':
+        sk = 'absent'           # an empty sid argument names no session: the request is an opening request
     eff_tr = tr if tr is not None else 'polling'
     r400 = []
     if eff_tr not in allowed:
@@ -267,7 +272,7 @@ def by_method_session_transport(fl: int, mi: int, ti: int, ski: int, ui: int) ->
 @cond(quick=dict(timeout=170, parts=dict(FL=[0, 1])), thorough=dict(timeout=600, parts=dict(FL=[0, 1])))
 def by_version_and_jsonp(fl: int, mi: int, ei: int, ji: int, ski: int) -> str:
     """
-    pre: fl == P.FL and 0 <= mi <= 2 and 0 <= ei < len(EIOS) and 0 <= ji < len(JS) and 0 <= ski <= 1
+    pre: fl == P.FL and 0 <= mi <= 2 and 0 <= ei < len(EIOS) and 0 <= ji < len(JS) and (0 <= ski <= 1 or ski == 7)
     post: _ == ''
     """
     return verdict(untraced(_admission, fl, 0, mi, ei, 1, ski, 0, ji))
